@@ -7,6 +7,7 @@ func init() {
 		ID:    "C18",
 		Title: "Templates are addressable by relative name; a bad file fails loading cleanly",
 		Rules: []string{
+			"R-LOADREC: the loader functions of the root package do not call each other in a cycle (loading is bounded by the files and the uses in them)",
 			"R-PATHAPI: the template extension is only tested/removed as a suffix and the directory only joined, walked, normalised or relativised (no substring functions); a file is registered only under HasSuffix(path, ext) and !IsDir; names come from filepath.Rel + TrimSuffix; NewTemplate pairs every error with a nil Template; layouts are not registered; an unknown name ends in template-not-found; EvaluateFile passes the unmodified content to EvaluateString",
 			"R-ERRDROP: no error returned by the loader's callees is discarded",
 			"R-PROGRESS/R-DELIM/R-BOUNDS/R-ASSERT/R-PANICCALL on the loader's own code and the lexer/parser it drives (no hang or panic while loading)",
@@ -15,6 +16,7 @@ func init() {
 		NotDecided:  "TODO",
 		Assumptions: trustedBase,
 		Run: func(m *Model, s *Sink) {
+			m.RunLoadRecursion(s, "R-LOADREC")
 			m.RunLoadErr(s, "R-LOADERR")
 			m.RunPathAPI(s, "R-PATHAPI")
 			r := m.Roots()
